@@ -48,10 +48,19 @@ func (f *fragReader) Read(p []byte) (int, error) {
 
 const chunkSig = "chunk-signature=0123456789abcdef0123456789abcdef0123456789abcdef0123456789abcdef"
 
+var encodeCalls int
+
+// encodeChunks frames the chunks; every other stream spells its chunk sizes with upper-case hex digits
+// (a hexadecimal numeral is one in either case)
 func encodeChunks(chunks [][]byte) []byte {
 	var b bytes.Buffer
+	encodeCalls++
 	for _, c := range chunks {
-		fmt.Fprintf(&b, "%x;%s\r\n", len(c), chunkSig)
+		if encodeCalls%2 == 0 {
+			fmt.Fprintf(&b, "%X;%s\r\n", len(c), chunkSig)
+		} else {
+			fmt.Fprintf(&b, "%x;%s\r\n", len(c), chunkSig)
+		}
 		b.Write(c)
 		b.WriteString("\r\n")
 	}
